@@ -579,7 +579,7 @@ variable {K : Codec} {cfg : Cfg} {spec : CountSpec} {s s' : State K} {i : Nat} {
 theorem acct_wstep (hinv : Inv cfg spec s) (h : Acct spec s) (hi : s.workers[i]? = some w)
     (hh : w.halted = false) (quit : Bool) (mb : Option (Option BufId))
     (hs : wstep cfg s i w quit mb = some s') : Acct spec s' := by
-  rcases hinv.wk i w hi with hhalt | ⟨a, hsim, hchk⟩
+  rcases hinv.wk i w hi with ⟨hhalt, _⟩ | ⟨a, hsim, hchk⟩
   · rw [hh] at hhalt; exact absurd hhalt (by simp)
   have local_tac : ∀ (s'' : State K) (w' : Worker K), s''.workers = s.workers.set i w' →
       (s''.rx = s.rx ∧ s''.udpq = s.udpq ∧ s''.fin = s.fin ∧ s''.nextId = s.nextId ∧ s''.log = s.log ∧
@@ -808,7 +808,7 @@ theorem pub_step (hinv : Inv cfg spec s) (h : PubInv s) (a : Action) (hs : step 
     rename_i w hi
     split at hs <;> try (simp at hs; done)
     rename_i hh
-    rcases hinv.wk i w hi with hhalt | ⟨a, hsim, hchk⟩
+    rcases hinv.wk i w hi with ⟨hhalt, _⟩ | ⟨a, hsim, hchk⟩
     · rw [hhalt] at hh; simp at hh
     unfold wstep at hs
     split at hs
@@ -959,5 +959,80 @@ theorem published_only_with_room {s s' : State K} (hs : Step cfg s s') (id : Nat
     all_goals first
       | (simp at ha; done)
       | (simp at ha; subst ha; simp at hd; left; exact hd)
+
+end Vflow.Pipeline
+
+namespace Vflow.Pipeline
+variable {K : Codec} {cfg : Cfg} {spec : CountSpec}
+
+/-! ## uniqueness helpers -/
+
+theorem uniq_of_countP_le_one {α} {p : α → Bool} : ∀ {l : List α}, l.countP p ≤ 1 → ∀ {a b}, a ∈ l → b ∈ l →
+    p a = true → p b = true → a = b
+  | [], _, a, b, ha, _, _, _ => by simp at ha
+  | x :: t, h, a, b, ha, hb, pa, pb => by
+      simp only [List.countP_cons] at h
+      have pos : ∀ y, y ∈ t → p y = true → 0 < t.countP p := fun y hy py => List.countP_pos_iff.mpr ⟨y, hy, py⟩
+      rcases List.mem_cons.mp ha with rfl | ha' <;> rcases List.mem_cons.mp hb with rfl | hb'
+      · rfl
+      · have := pos b hb' pb; rw [if_pos pa] at h; omega
+      · have := pos a ha' pa; rw [if_pos pb] at h; omega
+      · exact uniq_of_countP_le_one (by split at h <;> omega) ha' hb' pa pb
+
+/-- received datagrams have distinct ids below `nextId` -/
+def RecvUniq (s : State K) : Prop :=
+  (∀ d, Event.received d ∈ s.log → d.id < s.nextId) ∧
+  (∀ d1 d2, Event.received d1 ∈ s.log → Event.received d2 ∈ s.log → d1.id = d2.id → d1 = d2)
+
+theorem recvUniq_step {s s' : State K} (h : RecvUniq s) (hs : Step cfg s s') : RecvUniq s' := by
+  obtain ⟨a, ha⟩ := hs
+  cases a <;> simp only [step] at ha
+  case work i q mb =>
+    split at ha <;> try (simp at ha; done)
+    split at ha <;> try (simp at ha; done)
+    unfold wstep at ha
+    repeat' split at ha
+    all_goals first
+      | (simp at ha; done)
+      | (simp at ha; subst ha; simpa [RecvUniq, State.setW] using h)
+  case rxRead dg =>
+    split at ha <;> try (simp at ha; done)
+    split at ha
+    · simp at ha; subst ha; exact h
+    · rename_i addr bytes
+      simp at ha; subst ha
+      refine ⟨?_, ?_⟩
+      · intro d hd
+        simp at hd
+        rcases hd with rfl | hd
+        · simp
+        · exact Nat.lt_succ_of_lt (h.1 d hd)
+      · intro d1 d2 h1 h2 he
+        simp at h1 h2
+        rcases h1 with rfl | h1 <;> rcases h2 with rfl | h2
+        · rfl
+        · have := h.1 d2 h2; simp at he; omega
+        · have := h.1 d1 h1; simp at he; omega
+        · exact h.2 d1 d2 h1 h2 he
+  all_goals
+    repeat' split at ha
+    all_goals first
+      | (simp at ha; done)
+      | (simp at ha; subst ha; simpa [RecvUniq] using h)
+
+theorem reach_recvUniq {c : K.Cache} {mem0 : BufId → Bytes} {s : State K}
+    (hr : Reach cfg (init K c mem0) s) : RecvUniq s := by
+  induction hr with
+  | refl => simp [RecvUniq, init]
+  | step _ st ih => exact recvUniq_step ih st
+
+/-- published messages about `id` are publish attempts about `id` -/
+theorem count_pubList_le (log : List (Event K)) (id : Nat) :
+    ((pubList log).map (·.1)).count id ≤ nK 3 log id := by
+  induction log with
+  | nil => simp [pubList, nK]
+  | cons e l ih =>
+    rw [nK_cons]
+    cases e <;> simp only [pubList, tag, List.map_cons, count_cons'] <;> (try simp) <;> (try omega)
 
 end Vflow.Pipeline
